@@ -105,3 +105,36 @@ Definition update_target (content : bytes) (cur : Z) : option bytes :=
           end
       end
   end.
+
+(* ---- calcNextSeqInM3u8 (added by the re-publish fix): what Muxer.Start reads off the live playlist it finds ---- *)
+Definition seq_tag : bytes := (* "#EXT-X-MEDIA-SEQUENCE:" *) [35; 69; 88; 84; 45; 88; 45; 77; 69; 68; 73; 65; 45; 83; 69; 81; 85; 69; 78; 67; 69; 58]%N.
+Definition inf_tag : bytes := (* "#EXTINF:" *) [35; 69; 88; 84; 73; 78; 70; 58]%N.
+Definition max_int32 : Z := 2147483647.
+
+(* bytes.Split(s, "\n"): the pieces between line feeds (always at least one, the last one possibly empty) *)
+Fixpoint split_nl (s cur : bytes) : list bytes :=
+  match s with
+  | [] => [rev cur]
+  | c :: t => if (c =? 10)%N then rev cur :: split_nl t [] else split_nl t (c :: cur)
+  end.
+
+(* the loop over the lines: (seq, n) so far; None = the early "return 0, false" *)
+Fixpoint next_seq_lines (ls : list bytes) (seq n : Z) : option (Z * Z) :=
+  match ls with
+  | [] => Some (seq, n)
+  | l :: t =>
+      if has_prefix seq_tag l then
+        match atoi (skipn (length seq_tag) l) with
+        | Some v => if (v <? 0) || (max_int32 <? v) then None else next_seq_lines t v n
+        | None => None
+        end
+      else if has_prefix inf_tag l then next_seq_lines t seq (n + 1)
+      else next_seq_lines t seq n
+  end.
+
+(* EXT-X-MEDIA-SEQUENCE plus the number of EXTINF lines; None = ok false *)
+Definition next_seq (content : bytes) : option (Z * Z) :=
+  match next_seq_lines (split_nl content []) (-1) 0 with
+  | Some (seq, n) => if seq <? 0 then None else Some (seq, n)
+  | None => None
+  end.
